@@ -25,6 +25,8 @@ def is_real(s: Src) -> bool:
     for fn, frag, cls, _ in INFEASIBLE:
         if cls == s.cls and frag.replace(" ", "") in construct:
             return False
+    if s.cls == "ValueError" and construct.startswith("self._connections.remove("):
+        return False   # the side condition (element read from that very list) is decided by C15.R1
     if s.cls == "h11.LocalProtocolError" and "start_next_cycle" in construct:
         return False
     if s.cls == "KeyError" and "extensions[" in construct:
